@@ -518,6 +518,21 @@ func genRT(out *vc.Out, r *vc.Rand, thorough bool) {
 			}
 		}
 	}
+	// (1a') an EMPTY read (a zero-length message of a message transport: Read returns (0, nil), legal for an
+	// io.Reader) inside the length field and inside the body: io.ReadFull and the body loop just read on
+	for _, t1 := range []int{0x01, 0x10, 0x22, 0x24} {
+		for _, c1 := range []bool{false, true} {
+			pk := []pkt{{t1, c1, genBody(r, t1, mid)}, {0x22, false, []byte{9, 8, 7}}}
+			first := wireLen(pk[:1])
+			n := wireLen(pk)
+			if first >= 8 {
+				emitRT(out, pk, []int{1, 2, 0, 2, 0, first - 5, n - first}, false, "empty-read")         // inside the length, before the body
+				emitRT(out, pk, []int{5, 1, 0, first - 6, n - first}, false, "empty-read")                // after the first body byte
+				emitRT(out, pk, []int{5, (first - 5) / 2, 0, 0, first - 5 - (first-5)/2, n - first}, false, "empty-read") // mid-body, twice
+				emitRT(out, pk, []int{first - 1, 0, 1, n - first}, false, "empty-read")                   // before the last body byte
+			}
+		}
+	}
 	// (1b) empty bodies under message-per-write chunking (regression witness for the zero-length Write)
 	for _, t1 := range definedTypes {
 		pk := []pkt{{t1, false, nil}, {0x22, false, []byte{1, 2}}, {t1, true, nil}}
